@@ -251,11 +251,13 @@ static void op_fullcase(const V &a, V &r) {
 static void op_gatecase(const V &a, V &r) {
     need_keys(a);
     const TFheGateBootstrappingParameterSet *P = cur.params; const int n = P->in_out_params->n;
-    const ll *v = a.data() + SPECN; int g = v[0] % 100, alias = v[0] / 100; v++;      // alias 1..3: the result object IS input a / b / c
+    const ll *v = a.data() + SPECN; int g = v[0] % 100, alias = v[0] / 100; v++;      // alias 1..3: the result object IS input a / b / c; 4..6: two operands are one object
     LweSample *in = new_gate_bootstrapping_ciphertext_array(4, P);
     for (int q = 0; q < 3; q++) { for (int i = 0; i < n; i++) in[q].a[i] = (int32_t) v[(size_t) q * (n + 1) + i]; in[q].b = (int32_t) v[(size_t) q * (n + 1) + n]; }
-    LweSample *res = alias ? &in[alias - 1] : &in[3];
-    apply_gate(g, res, &in[0], &in[1], &in[2], (int) v[n], &cur.sk->cloud);
+    LweSample *res = (alias >= 1 && alias <= 3) ? &in[alias - 1] : &in[3];
+    const LweSample *pa = &in[0], *pb = &in[1], *pc = &in[2];          // alias 4: b is the same object as a   5: c is a   6: c is b
+    if (alias == 4) pb = pa; if (alias == 5) pc = pa; if (alias == 6) pc = pb;
+    apply_gate(g, res, pa, pb, pc, (int) v[n], &cur.sk->cloud);
     r.push_back(lwePhase(res, cur.sk->lwe_key)); r.push_back(bootsSymDecrypt(res, cur.sk));
     dump_lwe(res, n, r);
     delete_gate_bootstrapping_ciphertext_array(4, in);
